@@ -10,13 +10,15 @@ from vf import desc as D
 from vf import drive
 
 MODEL_PARS = ("tau", "eta", "kappa", "delta", "phi", "T")
+# names a user may give a network: none of them means anything to the model
+ODD_NET_NAMES = ("A1", "I-80 east/2", "A13_(north)", "_spare", "ring__2", "", " ", "1", "net 3", "Zürich Nord", "F", "__", "a_#_b")
 
 
 def candidate_params(desc, pars):
     """All (element id | '#', attribute) keys that may be made symbolic."""
     c = []
     for l in desc["links"]:
-        for a in ("rho_crit", "v_free", "a"):
+        for a in ("rho_crit", "v_free", "a", "rho_max"):
             c.append((l["id"], a))
     for o in desc["origins"]:
         if o["kind"] in ("ramp", "simple"):
@@ -71,32 +73,57 @@ class CompileCase:
             self.pvalues[k] = float(v)
         if ops is None and rng.random() < 0.6:
             ops = D.random_ops(desc, rng)  # live enumeration order != description order
-        self.built = D.build(M, desc, ops, param_override=override)
+        # the network's own name is a free label too
+        self.net_name = rng.choice(ODD_NET_NAMES) if rng.random() < 0.3 else None
+        self.built = D.build(M, desc, ops, param_override=override, net_name=self.net_name)
         self.engine = CE(symtype)
         self.spars = spars
         kw = drive.step_pars(spars)
-        # the objects may already have a past: an earlier step (own symbols, other parameters/options)
+        # the objects may already have a past: an earlier complete step (own symbols, other
+        # parameters/options), variables set up by hand with `el.init_vars` and never stepped, or a
+        # first step that failed half-way (a model parameter forgotten)
         if prestep is None:
-            prestep = rng.random() < 0.25
-        self.prestep = bool(prestep)
-        if self.prestep:
+            prestep = rng.random() < 0.4
+        self.prestep = bool(prestep) and rng.choice(("step", "step", "init_only", "failed_step"))
+        if self.prestep == "step":
             try:
                 self.built.net.step(engine=self.engine, **{k_: True for k_ in ("positive_init_density", "positive_next_speed") if rng.random() < 0.5}, **kw)
             except Exception:
                 pass
+        elif self.prestep == "init_only":
+            for el in list(self.built.net.elements):
+                if rng.random() < 0.7:
+                    el.init_vars(engine=self.engine)
+        elif self.prestep == "failed_step":
+            try:
+                self.built.net.step(engine=self.engine)  # no T, tau, ...: raises after the initialisation
+            except Exception:
+                pass
+        self.via = drive.pick_via(rng, 0.2)
         if own_symbols:
-            self.built.net.step(engine=self.engine, **self.opts, **kw)
+            drive.do_step(self.built.net, self.via, rng=rng, engine=self.engine, **self.opts, **kw)
         else:
             ic, self.syms = drive.sym_init(M, self.built, symtype, shuffle_keys=(rng if rng.random() < 0.6 else None))
-            self.built.net.step(init_conditions=ic, engine=self.engine, **self.opts, **kw)
+            drive.do_step(self.built.net, self.via, rng=rng, init_conditions=ic, engine=self.engine, **self.opts, **kw)
         self.order = C.live_order(self.built)
+        # the function may be requested from the stepping engine object, from another engine object of
+        # the same symbol type, or from one of the other symbol type (the README idiom
+        # `sym_metanet.engine.to_function(net, ...)` after the current engine was switched)
+        r = rng.random()
+        self.compile_engine_kind = "same object" if r < 0.7 else ("other object, same type" if r < 0.85 else "other symbol type")
+        if self.compile_engine_kind == "same object":
+            self.compile_engine = self.engine
+        elif self.compile_engine_kind == "other object, same type":
+            self.compile_engine = CE(symtype)
+        else:
+            self.compile_engine = CE("MX" if symtype == "SX" else "SX")
 
     def compile(self, compact, more_out, also_keywords=False):
         """also_keywords: declared symbolic model parameters (T, tau, ...) are ALSO passed as keyword
         arguments, as in the README (`to_function(net=net, parameters=..., T=T)`); only legal without
         flow outputs (with them the library itself refuses the duplicate keyword)."""
         other = {k: v for k, v in self.spars.items() if v is not None and (also_keywords or k not in self.parameters)}
-        return self.engine.to_function(
+        return self.compile_engine.to_function(
             self.built.net, compact=compact, more_out=more_out,
             parameters=(self.parameters or None), **other)
 
